@@ -9,8 +9,8 @@
      quiet e                           events that cannot touch the table while no connection is up
                                        (connect failure, timer, disconnect(), updateMetadata, and the disabled ones)
      CInv                              invariant of every reachable state (C10_reachable) *)
-From AV Require Import Base.Util Model.Framing Model.BrokerClient Model.BrokerClientHook Model.BrokerClientSync
-  Proofs.BrokerClientTbl Proofs.BrokerClientInv Proofs.BrokerClientC06 Proofs.BrokerClientC10 Proofs.BrokerClientExtra Proofs.BrokerClientHook Proofs.BrokerClientGaps Proofs.BrokerClientSync.
+From AV Require Import Base.Util Model.Framing Model.BrokerClient Model.BrokerClientHook Model.BrokerClientSync Model.BrokerClientWrite
+  Proofs.BrokerClientTbl Proofs.BrokerClientInv Proofs.BrokerClientC06 Proofs.BrokerClientC10 Proofs.BrokerClientExtra Proofs.BrokerClientHook Proofs.BrokerClientGaps Proofs.BrokerClientSync Proofs.BrokerClientWrite.
 
 Theorem C10_reachable : forall evs, CInv (fst (run init evs)).
 Proof. exact reachable_inv. Qed.
@@ -234,6 +234,21 @@ Theorem C10_unguarded_flush_refuted : exists evs s outs a h oc b rid,
   irun false init evs = (s, outs) /\ outs = a ++ ODef h oc :: b /\ In (OWrite h rid) b.
 Proof. exact unguarded_flush_refuted. Qed.
 Print Assumptions C10_unguarded_flush_refuted.
+
+(* ------------------------------------------------------------------ a write that raises (Model/BrokerClientWrite.v)
+   sendString / transport.write raising inside _sendRequest (brokerclient.py:370-373): the entry is deleted and the
+   Deferred errbacks with the exception (WFail h).  Every reachable state still satisfies the invariant, and a request
+   whose Deferred fired - in particular one whose WRITE FAILED - is never written again, on that or any later connection
+   (the ghost re-send of seeded change C06-m5); nor is a completed request ever failed by a write. *)
+Theorem C10_write_failure_reachable : forall evs, CInv (w_s (fst (wrun winit evs))).
+Proof. exact reachable_inv_w. Qed.
+Print Assumptions C10_write_failure_reachable.
+
+Theorem C10_write_failure_never_resent : forall evs ws outs a x h b, wrun winit evs = (ws, outs) -> outs = a ++ x :: b ->
+  (x = WFail h \/ exists oc, x = WO (ODef h oc)) ->
+  forall y, In y b -> y <> WFail h /\ (forall oc, y <> WO (ODef h oc)) /\ (forall rid, y <> WO (OWrite h rid)).
+Proof. exact never_resent_w. Qed.
+Print Assumptions C10_write_failure_never_resent.
 
 (* ------------------------------------------------------------------ connect() completing synchronously
    Model/BrokerClientSync.v transcribes tryConnect (brokerclient.py:421-429) for an endpoint whose connect() returns an
